@@ -48,6 +48,22 @@ func init() {
 			for _, variant := range []string{"small", "native"} {
 				add(c15Params{Hashes: deep, Setup: setup, Threads: [][]string{{"ins 26", "get 27"}, {"ins 27", "get 26", "ins 28"}}}, variant, 2, 8, 60)
 			}
+			// whole buckets in the middle of the chain are emptied (an empty overflow bucket is not the end of the chain):
+			// iteration, size and lookups still see the keys behind them; then the holes are refilled
+			var mid []string
+			for k := 0; k < 25; k++ {
+				mid = append(mid, fmt.Sprintf("ins %d", k))
+			}
+			for _, first := range []int{5, 15} {
+				for k := first; k < first+5; k++ {
+					mid = append(mid, fmt.Sprintf("del %d", k))
+				}
+				mid = append(mid, "range", "size", "get 4", "get 10", "get 14", "get 20", "get 24")
+			}
+			mid = append(mid, "range", "size")
+			for _, variant := range []string{"small", "native"} {
+				add(c15Params{Hashes: deep, Setup: mid, Threads: [][]string{{"range", "ins 6"}, {"ins 16", "get 24", "range"}}}, variant, 2, 8, 60)
+			}
 		}
 		if !thorough {
 			// H1: get / insert / delete / update in one chain incl. overflow bucket (6 colliding keys)
